@@ -88,11 +88,19 @@ pub fn case(rng: &mut Rng) -> String {
             let dyadic_only = rng.chance(1, 2);
             for i in 0..rows {
                 let zero_row = rng.chance(1, 6);
+                // a row whose coefficients are all tiny but not all zero (it prints as zeros, it is not a zero row)
+                let tiny_row = !zero_row && rng.chance(1, 8);
                 for j in 0..cols {
                     mat[[i, j]] = if zero_row { if rng.chance(1, 3) { -0.0 } else { 0.0 } } else { weird(rng) };
                     if dyadic_only && (mat[[i, j]] * 1048576.0).fract() != 0.0 {
                         mat[[i, j]] = rng.lat();
                     }
+                    if tiny_row {
+                        mat[[i, j]] = *rng.pick(&[0.0, (2.0f64).powi(-60), -(2.0f64).powi(-60), (2.0f64).powi(-70), -(2.0f64).powi(-70)]);
+                    }
+                }
+                if tiny_row && (0..cols).all(|j| mat[[i, j]] == 0.0) {
+                    mat[[i, 0]] = (2.0f64).powi(-60);
                 }
                 bias[i] = weird(rng);
                 if dyadic_only && (bias[i] * 1048576.0).fract() != 0.0 {
